@@ -303,7 +303,7 @@ type replayT struct {
 
 const caseHeader = `From Coq Require Import String List NArith ZArith Bool.
 Import ListNotations.
-Require Import Verif.Export.OasTypes Verif.Export.OasExport Verif.Export.OasCurrent Verif.Export.Run Verif.Base.Harness.
+Require Import Verif.Export.OasTypes Verif.Export.OasExport Verif.Export.Run Verif.Base.Harness.
 Local Open Scope string_scope. Local Open Scope N_scope.`
 
 const caseFooter = `Definition M := Eval vm_compute in mismatches c12_ok cases.
@@ -349,7 +349,12 @@ func main() {
 		v := judgeApp(rp.App, options{arrai: true, coq: true})
 		c.Count("replay", true)
 		fmt.Fprintf(realOut, "---- Sysl text\n%s\n---- export -f openapi3 (yaml)\n%s\n---- re-imported (arr.ai importer)\n%s\n---- export -f swagger (yaml)\n%s\n---- re-imported\n%s\n", render([]aApp{rp.App}), v.Out3, v.Reimp3, v.Out2, v.Reimp2)
+		known := knownKeys()
 		for _, f := range v.Findings {
+			if known(f.Key) { // listed findings are shown, but only an unlisted failure makes the replay fail
+				fmt.Fprintln(realOut, "KNOWN", f.Key, f.What)
+				continue
+			}
 			fmt.Fprintln(realOut, "FAIL", f.Key, f.What)
 			c.Fail(f.Key, f.What, rp)
 		}
